@@ -19,7 +19,7 @@ CHECKS["C16"] = {
     "families": ["meta"],
     "trusted_base": ["the bit-level model of encodeBlock/decodeBlock/Writer.Write buffering/ReverseSearch is hand-written; the 64-bit buffer and staging of prefix.Reader/Writer underneath are not represented here (C20 covers them)"],
     "assumptions": ["bit I/O of internal/prefix delivers the bit list it was given (C20)"],
-    "level_text": "partial, large part full: Lean theorems C16_block_roundtrip (decodeBlock (encodeBlock p m ++ anything) = p, m, exact length, for every payload and mode), C16_stream_roundtrip (any payload length, any mode, any number of blocks: decode (encode p m) = p, m, block count, every byte consumed; independent of write splits because the model's Write is a byte fold), C16_write_total, C16_fit22 (<= 22 bytes => exactly one block), C16_block_aligned. Not yet proved in Lean, decided by the oracle sweep only: silence under a DEFLATE decoder and its converse (M2/M2'), the 12..64-byte block size bound (M3), signature only at block starts / ReverseSearch (M4).",
+    "level_text": "full except the converse direction: Lean theorems C16_block_roundtrip and C16_stream_roundtrip (decode (encode p m) = p, m, block count, every byte consumed, for every payload length and mode; split-independent because the model's Write is a byte fold), C16_write_total, C16_fit22 (<= 22 bytes => one block), C16_block_aligned, C16_block_size (12..64 bytes), C16_magic_only_at_start + C16_reverseSearch_spec + C16_reverseSearch_finds_last_block (signature at block starts only, so the backward search finds the last block), C16_silent_in_deflate (to the RFC 1951 specification every meta block is a complete empty dynamic block, final iff FinalStream). Not proved: the converse (whatever the meta decoder accepts is such a block sequence) - decided by the oracle sweep on mutated inputs only.",
     "level_note": "Trusted: Lean kernel (propext, Classical.choice, Quot.sound); hand-written model tied to /repo by byte-exact correspondence of encoder output, decoder verdicts and ReverseSearch on ~46k cases per quick run (all payloads <= 1 byte x 3 modes, footers, random payloads, mutations); compress/flate is the reference for the DEFLATE-silence oracle.",
     "explanation": "round-trip theorems for the meta codec model; remaining clauses checked on the implementation by the oracle",
 }
